@@ -33,6 +33,16 @@ CHECKS = {
         technique='trace validation: explicitly positioned StreamFragments of the pretty / minify / obfuscating printers validated by PosTrace.tla (LineCol machine) in TLC batches; programs and the set of ASI-supplied semicolons come from ES5Grammar.tla derivations',
         text='For TLC-derived programs with rich layout (multi-line tokens, CR/CRLF/LS/PS, comments, with and without comment capture) every fragment with an explicit line:column must name a LineCol position of the source at which the source starts with the fragment token (original name when renamed, first comma of an elision run) and must name its own source file; semicolons the derivation marks as supplied by automatic insertion are exempt.  TLC gives a verdict per (program, printer) naming the failing fragment.',
         note='Trusted: line:column to offset conversion and starts-with facts in harness/c08.py (re-validated / asserted by PosTrace.tla); programs whose real tree differs from the dictated one are skipped (C03/C04).  The check asks what the statement asks (text occurs there), not that it is the same occurrence.'),
+    'C04': dict(
+        category='model_checking', design_ref='5 (C04)',
+        technique='TLA+ derivation machine with automatic semicolon insertion (ES5Grammar.tla: virtual semicolons, line-break flags, restricted productions, continuation sets) enumerated by TLC; every sentence replayed into parse() under 15 kinds of line-breaking layout plus its explicit-semicolon twin; near-sentences with one 7.9 rule lifted must be rejected (membership by ES5Accept.tla)',
+        text='TLC enumerates every program of three ASI themes up to MaxTok tokens with up to MaxNL line breaks and the virtual semicolons 7.9 allows, with the dictated tree (identical to the explicit-semicolon tree by construction); the real parser must build that tree for every line-break layout kind (LF, CR, CRLF, LS, PS, comments before/after/containing the break, line comments) and for the explicit twin, and must reject the near-sentences obtained by lifting the restricted-production, empty-statement, for-header or offending-token rules.',
+        note='Bounded (tokens, line breaks, layout kinds as class representatives); the continuation sets Cont(e) are transcribed by hand from the grammar.'),
+    'C05': dict(
+        category='model_checking', design_ref='5 (C05)',
+        technique='TLC-derived sentences of the slash themes carry the dictated class of every `/` (DIV, DIVEQUAL, REGEX); replayed into the parser with a recording lexer under varied layout (white-space kinds, comments, line breaks where derivable); token type chosen per slash offset and the tree compared with the derivation',
+        text='For every sentence of three slash themes (every predecessor construct the grammar allows: header parentheses of if/for/while/with, call and grouping parentheses, brackets, braces of blocks / objects / functions, operands, postfix and prefix operators, keywords, property names) the token type the parser-driven lexer finally chose at each slash offset and the resulting tree must equal what the derivation dictates, for rotating layout kinds around the slash.',
+        note='Bounded; layout kinds are class representatives; the recording lexer subclass observes token() results only.'),
 }
 
 NOT_YET = {}
